@@ -362,8 +362,18 @@ def shard_unpriv(seed, count):
             st_[gen.bank_key(f['m'], mode)] = 0
         is_store = name.startswith('STR')
         user_denied = background or ap in (1, 5) or (ap == 2 and is_store)
-        case['unpriv_check'] = {'user_denied': bool(user_denied), 't': f['t'], 'n': f['n'], 'straddle': bool(straddle)}
+        after_strex = name in ('STRT_A1', 'STRT_A2', 'STRT_T1') and not straddle and 12 not in (f['n'], f['t']) and rng.random() < 0.4
+        if after_strex:
+            # the privileged code has just executed a store-exclusive to the very same word (it fails - no reservation - or passes): whatever that
+            # instruction established about the address, the unprivileged store that follows is checked on its own, with User permissions
+            st_[gen.bank_key(f['n'], mode)] &= ~3
+            from vf.props.history import enc as _enc
+            sx = e1.enc_arm(_enc('STREX_A1', n=f['n'], d=12, t=f['t'])) if not thumb else e1.enc_thumb(_enc('STREX_T1', n=f['n'], t=f['t'], d=12, i=0), True)
+            case['poke'][0][1] = (sx + bytes.fromhex(case['poke'][0][1])).hex()
+        case['unpriv_check'] = {'user_denied': bool(user_denied), 't': f['t'], 'n': f['n'], 'straddle': bool(straddle), 'after_strex': bool(after_strex)}
         cpu = e1.build(case)
+        if after_strex and (target.step_budget(cpu) is not None or target.snapshot(cpu)['R.PC'] != st_['R.PC'] + 4):
+            continue                    # (the store-exclusive itself faulted - a read-only region: not the situation this variant is about)
         pre = target.snapshot(cpu)
         exc = target.step_budget(cpu)
         post = target.snapshot(cpu)
@@ -486,6 +496,10 @@ def replay(case, bucket=None):
     if 'unpriv_check' in case:
         uc = case['unpriv_check']
         cpu = e1.build(case)
+        if uc.get('after_strex'):
+            target.step_budget(cpu)
+            if target.snapshot(cpu)['R.PC'] != case['state']['R.PC'] + 4:
+                return []
         pre = target.snapshot(cpu)
         exc = target.step_budget(cpu)
         post = target.snapshot(cpu)
